@@ -157,7 +157,7 @@ CHECKS = {
         "scopematch x 81 scope maps given as fourth argument of addEventAndWait / addEvent; (8) rule sets that change over a restart: no rule or one "
         "rule (9 kind patterns with wildcards in every position), events of 5 kinds, Finish, a second rule, Start, the same events (90 histories); state "
         "patterns that are present but empty (statematch {}) against events without state"),
- "C03": dict(engine="engine-B", cat="exploration", ref="DESIGN.md 5.2, 7/C03, 9a", note="reference semantics encode only what ecal.md and the property statement define; Unspecified (counted, not compared): zero divisors, % outside non-negative integers, ordering across kinds, equality/membership of containers, like/hasPrefix/hasSuffix on non-strings, membership in non-lists; left-to-right operand evaluation", tech="bounded exhaustive enumeration of expression trees against an independent reference evaluator that works on the generator's own trees (precedence from the stated table, not from the parser)",
+ "C03": dict(engine="engine-B", cat="exploration", ref="DESIGN.md 5.2, 7/C03, 9a", note="reference semantics encode only what ecal.md and the property statement define; Unspecified (counted, not compared): zero divisors, % with a negative operand or a divisor below 1 (fractional operands are compared: remainder of the truncated operands), ordering across kinds, equality/membership of containers, like/hasPrefix/hasSuffix on non-strings, membership in non-lists; left-to-right operand evaluation", tech="bounded exhaustive enumeration of expression trees against an independent reference evaluator that works on the generator's own trees (precedence from the stated table, not from the parser)",
    text="all x op y over 23 operands (numbers incl. 0 and fractions, strings incl. interpolating literals, booleans, null, variables, call results, "
         "list elements, map fields, list literals incl. the empty list) x 19 binary operators; prefix -, +, "
         "not on either operand and over the parenthesised pair; all x op1 y op2 z unparenthesised (reference tree built by precedence climbing over "
@@ -165,7 +165,7 @@ CHECKS = {
         "redundant parentheses): 950 000 evaluations quick, 490 000 with a defined result (thorough adds all operator triples over 4 operands). "
         "Oracle: value equality (float64 bit-equal) or a runtime error of the stated type naming the offending operand; re-evaluation: every operator parsed "
         "ONCE and evaluated for sequences of operand pairs (zero divisors, wrong kinds, malformed patterns in between) must give what a fresh parse gives"),
- "C04": dict(engine="engine-B", cat="exploration", ref="DESIGN.md 5.2, 7/C04, 9a", note="observation = ordered trace of a harness mark() function plus type/detail/data of the final error; left open: otherwise after return/break/continue, exits from inside finally, range with contradictory or missing step, control statements leaving the program", tech="bounded exhaustive enumeration of programs (full product over exit kinds x handler shapes x clauses x contexts) against a small-step reference interpreter over the generator's own statement trees",
+ "C04": dict(engine="engine-B", cat="exploration", ref="DESIGN.md 5.2, 7/C04, 9a", note="observation = ordered trace of a harness mark() function plus type/detail/data of the final error; whether otherwise runs after a try block left by return/break/continue is open (both readings accepted, the return/break/continue must survive); left open: exits from inside finally, range with contradictory or missing step, control statements leaving the program", tech="bounded exhaustive enumeration of programs (full product over exit kinds x handler shapes x clauses x contexts) against a small-step reference interpreter over the generator's own statement trees",
    text="every try statement = body exit kind (fall through, raise A, raise B, runtime error, return, break, continue) x 8 handler shapes (none, "
         "bare, `e`, \"A\", \"A\" as e, \"A\",\"B\", \"A\" then bare, \"B\" then \"A\" as e) x otherwise (absent, marker, raising) x finally x handler "
         "blocks that raise / return, placed at top level, in loop and function bodies and inside another try's body / except / otherwise "
